@@ -522,6 +522,52 @@ func c15Metadata(c *Ctx) {
 				}
 				return false, false
 			}, isSink)
+			// the list that receives the results is looked up in the live array when they are copied back: its element
+			// is addressed with the loop variable of a range over that very array (an index remembered from before the
+			// downloads can point at a neighbour once a list was removed meanwhile)
+			okIdx := true
+			for _, w := range ins {
+				st, isSt := w.(*ssa.Store)
+				if !isSt {
+					continue
+				}
+				fa, isFA := st.Addr.(*ssa.FieldAddr)
+				if !isFA {
+					continue
+				}
+				base := fa.X
+				// the element may be handed to an owned helper as its receiver/parameter
+				for hop := 0; hop < 3; hop++ {
+					prm, isPrm := base.(*ssa.Parameter)
+					if !isPrm {
+						break
+					}
+					args := core.ArgsOfParam(prm)
+					if len(args) != 1 {
+						break
+					}
+					base = args[0]
+				}
+				ia, isIA := base.(*ssa.IndexAddr)
+				if !isIA {
+					continue // not an element of an array (e.g. the list object the download worked on)
+				}
+				// the index is the counter of a range loop (the `+1` of the loop-header phi)
+				isLoopVar := false
+				if bo, isBO := ia.Index.(*ssa.BinOp); isBO && bo.Op == token.ADD {
+					if ph, isPhi := bo.X.(*ssa.Phi); isPhi && strings.HasPrefix(ph.Block().Comment, "rangeindex") {
+						isLoopVar = true
+					}
+				}
+				if ph, isPhi := ia.Index.(*ssa.Phi); isPhi && strings.HasPrefix(ph.Block().Comment, "rangeindex") {
+					isLoopVar = true
+				}
+				if !isLoopVar {
+					okIdx = false
+				}
+			}
+			r.Check(okIdx, "C15-D3", "metadata-copied-by-search-not-by-stale-index:"+fk, p.FnPos(fn),
+				"the live list that receives refreshed metadata is found by scanning the live array", "refreshed metadata is written through an index into the live array that does not come from scanning it now: when a list is removed during the download, the results of a refresh that already replaced the file are lost")
 			r.Check(n2 > 0 && len(off2) == 0, "C15-D3", "metadata-copied-to-same-list:"+fk, p.FnPos(fn),
 				"metadata is copied only to the list with the same ID", "metadata can be copied to a different list", traceOf(p, off2)...)
 		case "(*filtering.DNSFilter).load":
